@@ -51,7 +51,7 @@ def doAct (fl : Flavour) (wi tb : Nat) (w : Worker) : WAct → WSt → WSt
   | .runTest, s =>
     match fl with
     | .suite =>
-      let r := sectionsAbort w.faults s.loc (testsOps 0 w.tests)
+      let r := sectionsAbort w.faults s.loc (workerOps w)
       { s with segs := s.segs ++ r.1.map Seg.sec, loc := r.2.1, raised := r.2.2 || w.boom }
     | .stream => { s with segs := s.segs ++ (testsEvents wi 0 w.tests).map (fun e => Seg.put (.status e)), raised := w.boom }
   | .runBroken, s =>
